@@ -433,7 +433,7 @@ def run_timing(spec, ctx):
         "kind": st.just("timing"),
         "op": st.sampled_from(ops),
         "t_complete": st.sampled_from([0.25, 0.5, 1.0, 2.0, 3.5]),
-        "timeout": st.sampled_from([None, 0.1, 0.25, 0.75, 1.0, 3.0, 100.0]),
+        "timeout": st.sampled_from([None, 0, 0.0, 0.1, 0.25, 0.75, 1.0, 3.0, 100.0]),
         "how": st.sampled_from(["value", "error"]),
     })
 
